@@ -290,8 +290,9 @@ pub fn gen_abuse(rng: &mut Prng, h2: &mut H2Knobs, tier: Tier) -> ClientAbuse {
         _ => {
             let extra = *rng.pick(&[1u32, 2, 5]);
             let hpack_probe = rng.below(2) == 0;
-            ca.kind = Kind::TooManyStreams { extra, hpack_probe };
-            ca.feature = format!("max_concurrent_streams/exceeded{}", if hpack_probe { "/hpack_reference_to_refused_block" } else { "" });
+            let with_body = !hpack_probe && rng.below(2) == 0;
+            ca.kind = Kind::TooManyStreams { extra, hpack_probe, with_body };
+            ca.feature = format!("max_concurrent_streams/exceeded{}{}", if hpack_probe { "/hpack_reference_to_refused_block" } else { "" }, if with_body { "/with_body" } else { "" });
             ca.followup = false;
         }
     }
